@@ -73,6 +73,56 @@ def run_impl(s):
     return obs, stock
 
 
+class _Captured(Exception):
+    """raised from the wrapped Parser.__init__ once the token list is recorded: nothing is parsed, no tag is compiled"""
+
+
+_engines = {}
+
+
+def run_impl_compile(s, debug):
+    """The token stream the patched Template compiles FROM: Template(s, engine=Engine(debug=debug)) with
+    django.template.base.Parser.__init__ wrapped (from here, no source hook) to record the tokens it is handed.
+    -> ('toks', [...]) | classified exception of Template(...) when no Parser was constructed."""
+    base, _ = _mods()
+    from django.template import Engine, Template
+    if debug not in _engines:
+        _engines[debug] = Engine(debug=debug)
+    cap = []
+    orig = base.Parser.__init__
+
+    def init(self, tokens, *a, **k):
+        cap.append([tok_tuple(t) for t in tokens])
+        e = _Captured()
+        e.token = base.Token(base.TokenType.TEXT, "", (0, 0), 1)   # the debug branch of compile_nodelist reads e.token
+        raise e
+    base.Parser.__init__ = init
+    try:
+        Template(s, engine=_engines[debug])
+        out = ("exc", "NoParser", "Template() returned without constructing a Parser")
+    except _Captured:
+        out = ("toks", cap[0])
+    except Exception as e:  # noqa
+        out = ("toks", cap[0]) if cap else classify_exc(e)
+    finally:
+        base.Parser.__init__ = orig
+    return out
+
+
+class CompileRoute:
+    """Sampling of the compile route inside eval_source: every `every`-th source of a family goes through
+    Template(...) under both engine.debug settings; every `coq_every`-th of those is also sent to the model."""
+    def __init__(self, every, coq_every=0):
+        self.every, self.coq_every, self.n, self.terms = every, coq_every, 0, []
+
+    def pick(self):
+        self.n += 1
+        return self.every and self.n % self.every == 0
+
+    def pick_coq(self):
+        return self.coq_every and (self.n // self.every) % self.coq_every == 0
+
+
 def run_impl_lexv(s, verbatim):
     base, _ = _mods()
     lx = base.DebugLexer(s)
@@ -295,6 +345,10 @@ CORPUS = [
     ("verbatim-quoted-close-inside", "{% verbatim \"a%}b\" %}x{% endverbatim \"a%}b\" %}y"),
     ("backslash-newline", "{% a 'b\\\nc%}' %}\n{{ d }}"),
     ("nbsp-strip", "{% a 'b'　%}{{ x }}"),
+    # carriage returns: CRLF line ends, lone CR (ordinary character, not a line end), also through Template(...) (seed C09d)
+    ("crlf-text-tags", "a\r\n{% x %}\r\n{{ v }}\r\n{# c #}\r\nb"),
+    ("crlf-quoted", "a\r\n{% x 'q' %}\r\nb\r\n{% y\r\n 'r%}'\r\n%}\r\n{{ v }}"),
+    ("lone-cr", "a\r{% x 'q\r' %}\r{{ v }}\r\r\n{% y %}"),
 ]
 
 
@@ -311,6 +365,7 @@ def load_corpus_files():
 
 A1 = "{%}\"'\\\na "      # the 9-symbol alphabet of DESIGN section 6
 A2 = "{}#%\nv\""         # comments / variables / a quote
+A3 = "{%}\"\r\na"        # carriage returns: CRLF and lone CR (an ordinary character for spans; only \n counts as a line)
 
 
 def gen_exhaustive(alphabet, maxlen):
@@ -321,7 +376,7 @@ def gen_exhaustive(alphabet, maxlen):
 
 def rnd_ws(rng):
     # mostly ASCII blanks; now and then one of the other code points str.strip() removes (form feed, FS, NBSP, EM SPACE, ...)
-    return rng.choice(["", " ", " ", " ", "  ", "\n", " \n ", "\t", "\u00a0 ", " ", " ", "\x0c", "\x1c ", " \u2003", "\u3000", "\x85"])
+    return rng.choice(["", " ", " ", " ", "  ", "\n", " \n ", "\t", "\u00a0 ", " ", " ", "\x0c", "\x1c ", " \u2003", "\u3000", "\x85", "\r\n", " \r\n ", "\r"])
 
 
 def rnd_word(rng):
@@ -332,7 +387,7 @@ def rnd_string(rng):
     q = rng.choice(QUOTES)
     parts = []
     for _ in range(rng.randint(0, 4)):
-        parts.append(rng.choice(["a", " ", "%}", "}}", "{%", "{{ x }}", "\n", "\\" + q, "\\\\", "\\", "\\\n", "%", "#}",
+        parts.append(rng.choice(["a", " ", "%}", "}}", "{%", "{{ x }}", "\n", "\r\n", "\r", "\\" + q, "\\\\", "\\", "\\\n", "%", "#}",
                                  "'" if q == '"' else '"', "b c", "{% lorem 3 w %}"]))
     return q + "".join(parts) + q
 
@@ -342,7 +397,7 @@ def rnd_tag(rng, multiline_bias=0.2):
     parts = [rnd_ws(rng), rng.choice(["a", "component", "if", "x", "fill", "verbatim", "endverbatim", "verbatim v", "endverbatim v",
                                         "a", "component", "verbatimx", "verbatim\tv", "verbatim\n", "endverbatimx"])]
     for _ in range(rng.choice([0, 0, 1, 1, 1, 2, 2, 3, 4])):
-        parts.append(rng.choice([" ", " ", "  ", "\n", "\n  "]) if rng.random() < multiline_bias + 0.5 else " ")
+        parts.append(rng.choice([" ", " ", "  ", "\n", "\n  ", "\r\n  "]) if rng.random() < multiline_bias + 0.5 else " ")
         r = rng.random()
         if r < 0.55:
             parts.append(rng.choice(["", "k=", "k:attr="]) + rnd_string(rng))
@@ -355,7 +410,8 @@ def rnd_tag(rng, multiline_bias=0.2):
 def rnd_piece(rng):
     r = rng.random()
     if r < 0.22:
-        return rng.choice(["text", "a\nb", "\n", " ", "x y\n\nz", "<p>", "{", "}", "%}", "{ %", "'", '"', "it's", "\\"])
+        return rng.choice(["text", "a\nb", "\n", " ", "x y\n\nz", "<p>", "{", "}", "%}", "{ %", "'", '"', "it's", "\\",
+                           "a\r\nb", "\r\n", "\r", "x\r\n\r\ny"])
     if r < 0.32:
         return "{{" + rnd_ws(rng) + rng.choice(["v", "a.b", "x|f:'y'", "\"}}\"", "n\nl"]) + rnd_ws(rng) + "}}"
     if r < 0.40:
@@ -391,6 +447,7 @@ VALID_PIECES = [
     "{% with a='1' %}{{ a }}{% endwith %}", "{% if v == 'q' %}y{% endif %}", "{% firstof\n 'a'\n 'b' %}",
     "{%\nfirstof 'l1\nl2' %}", "{% verbatim %}{% nosuch 'x' %}{% endverbatim %}", "{% verbatim 'n' %}{% bad %}\n{% endverbatim 'n' %}",
     "{% firstof v %}", "{% comment %}{% bad 'q' %}\n{% endcomment %}",
+    "a\r\nb\r\n", "{% firstof\r\n 'a%}'\r\n %}", "x\r",
 ]
 
 
@@ -503,14 +560,19 @@ def lex_hash1(obs, stock):
     return hash_list(flat_obs(obs) + flat_toks(stock))
 
 
-def eval_source(chk, s, kind, note=None, sample_ok=False):
+def eval_source(chk, s, kind, note=None, sample_ok=False, cr=None):
     """Run the implementation on s (both tag_re flags when s has a newline), apply the direct oracle, count,
-    and return the hash the Coq model must reproduce (Codec.lex_hash)."""
+    and return the hash the Coq model must reproduce (Codec.lex_hash).
+    cr (CompileRoute): when it picks s, the stream handed to Parser by Template(s) (engine.debug on and off) gets the
+    same oracles against Template.source, must equal parse_template(s), and (sampled) is sent to the model as well."""
     hs = []
+    compile_it = cr is not None and cr.pick()
+    chs = {True: [], False: []}
     for d in ((True, False) if "\n" in s else (True,)):
         set_dotall(d)
         obs, stock = run_impl(s)
-        if obs[0] == "toks" and obs[1] == stock and len(stock) <= 1 and (not stock or stock[0][0] == 0):
+        trivial = obs[0] == "toks" and obs[1] == stock and len(stock) <= 1 and (not stock or stock[0][0] == 0)
+        if trivial:
             # a single TEXT token (or the empty source): nothing of the mechanism is exercised
             f, info, nontriv = local_oracle(s, stock), None, False
             if stock and stock[0][1] != s:
@@ -526,6 +588,28 @@ def eval_source(chk, s, kind, note=None, sample_ok=False):
         if f:
             chk.fail(f[0], f[1], {"kind": "lex", "dotall": d, "source": s, "parse_template": obs, "stock": stock})
         hs.append(lex_hash1(obs, stock))
+        if compile_it:
+            for debug in (True, False):
+                cobs = run_impl_compile(s, debug)
+                chk.count(("compile-route", debug, d, s), nontriv, kind=kind.split("-len")[0] + "-compile-route")
+                if cobs[0] == "toks":
+                    cf = local_oracle(s, cobs[1])
+                    if cf is None and (trivial and cobs[1] != stock):
+                        cf = ("c09-stock-eq", "text-only source: stream differs from stock Django's")
+                else:
+                    cf = None
+                if cf is None and not trivial:
+                    cf, _ = oracle(s, cobs, stock)
+                if cf is None and cobs != obs:
+                    cf = ("c09-compile-path", "differs from parse_template(Template.source): %s vs %s" % (_short(cobs), _short(obs)))
+                if cf:
+                    chk.fail("c09-compile-path", "token stream handed to Parser by Template(source) (engine.debug=%r): [%s] %s" % (debug, cf[0], cf[1]),
+                             {"kind": "compile-route", "dotall": d, "debug": debug, "source": s, "stream": cobs, "parse_template": obs, "stock": stock})
+                chs[debug].append(lex_hash1(cobs, stock))
+    if compile_it and cr.pick_coq():
+        for debug in (True, False):
+            c = chs[debug]
+            cr.terms.append((s, c[0] if len(c) == 1 else hash_list([c[1]], c[0]), debug))
     return hs[0] if len(hs) == 1 else hash_list([hs[1]], hs[0])
 
 
@@ -573,7 +657,7 @@ def coq_block_hashes(jobs):
     return res
 
 
-def exhaustive_family(chk, alphabet, maxlen, tagname, note):
+def exhaustive_family(chk, alphabet, maxlen, tagname, note, cr=None):
     """Every string over `alphabet` up to maxlen: implementation + direct oracle in Python, model inside Coq;
     compared through one hash per block of len(alphabet)^k strings; differing blocks are re-run case by case."""
     jobs, impl_hashes, blocks = [], [], []
@@ -590,7 +674,7 @@ def exhaustive_family(chk, alphabet, maxlen, tagname, note):
             hs = []
             for _ in range(cnt):
                 pre = "".join(next(allp))
-                hs.append(hash_list([eval_source(chk, pre + suf, "%s-len%d" % (tagname, L), note) for suf in sufs]))
+                hs.append(hash_list([eval_source(chk, pre + suf, "%s-len%d" % (tagname, L), note, cr=cr) for suf in sufs]))
                 blocks.append((pre, sufs))
             impl_hashes.append(hs)
     model_hashes = coq_block_hashes(jobs)
@@ -659,21 +743,35 @@ def run(tier, seed):
     try:
         # ---- 0. corpus first, then structured / random sources: literal source + hashed outcome ----
         srcs = []
+        if not getattr(__import__("django").template.Template, "_djc_patched", False):
+            chk.fail("c09-not-patched", "django.template.Template is not patched by django_components.apps.ready()", {"kind": "compile"})
+        cr_all, cr_struct = CompileRoute(1, 1), CompileRoute(1, 4)
         for name, s in CORPUS + load_corpus_files():
-            srcs.append((s, eval_source(chk, s, "corpus", note)))
+            srcs.append((s, eval_source(chk, s, "corpus", note, cr=cr_all)))
         nstruct = 40000 if thorough else 7000
         for s in gen_structured(rng, nstruct):
-            srcs.append((s, eval_source(chk, s, "structured", note, sample_ok=True)))
+            srcs.append((s, eval_source(chk, s, "structured", note, sample_ok=True, cr=cr_struct)))
         for s in gen_random_strings(rng, 20000 if thorough else 3000, A1 + "{%}\"'", 8, 24):
-            srcs.append((s, eval_source(chk, s, "random-A1", note)))
+            srcs.append((s, eval_source(chk, s, "random-A1", note, cr=cr_struct)))
+        for s in gen_random_strings(rng, 6000 if thorough else 1000, A3 + "{%}\r\n'", 6, 20):
+            srcs.append((s, eval_source(chk, s, "random-A3", note, cr=cr_struct)))
         terms = ["(%s, %d%%N)" % (coq_string(enc_str(s)), h) for s, h in srcs]
         bad = C.coq_eval_cases("C09", "lexh", IMPORTS, "string * N", "dec_lex_hash", terms, shard=1000)
         pinpoint(chk, [srcs[i][0] for i in bad], "Lexer model != parse_template / DebugLexer")
+        # the same comparison for the stream Template(source) hands to the Parser
+        cterms = cr_all.terms + cr_struct.terms
+        bad = C.coq_eval_cases("C09", "lexc", IMPORTS, "string * N", "dec_lex_hash",
+                               ["(%s, %d%%N)" % (coq_string(enc_str(s)), h) for s, h, _ in cterms], shard=1000)
+        for i in bad[:20]:
+            s, _, debug = cterms[i]
+            chk.disagree("Lexer model != token stream handed to Parser by Template(source) (engine.debug=%r)" % debug,
+                         {"kind": "compile-route", "debug": debug, "source": s})
         # ---- 1. exhaustive short strings (enumerated on both sides) ----
-        l1, l2 = (7, 7) if thorough else (6, 6)
+        l1, l2, l3 = (7, 7, 6) if thorough else (6, 6, 5)
         suspects = []
-        for alphabet, maxlen, tagname in ((A1, l1, "exhA1"), (A2, l2, "exhA2")):
-            suspects += exhaustive_family(chk, alphabet, maxlen, tagname, note)
+        for alphabet, maxlen, tagname, cr in ((A1, l1, "exhA1", CompileRoute(16)), (A2, l2, "exhA2", CompileRoute(16)),
+                                              (A3, l3, "exhA3", CompileRoute(1))):
+            suspects += exhaustive_family(chk, alphabet, maxlen, tagname, note, cr)
         if suspects:
             suspects.sort(key=len)
             pinpoint(chk, suspects, "Lexer model != parse_template / DebugLexer (exhaustive family)")
@@ -741,9 +839,12 @@ def run(tier, seed):
              "(implementation + direct oracle) and inside Coq (model), with tag_re with and without DOTALL when the string has a newline; %d structured "
              "sources (text, {{ }}, {# #}, tags with 0..4 quoted strings of both kinds with escapes / embedded %%} }} newlines, multi-line tags, verbatim "
              "blocks incl. quoted names, unterminated constructs) and random strings of length 8-24; DebugLexer with preset verbatim; "
-             "_detailed_tag_parser directly; compile-path error lines. Non-trivial = at least two quoted block tags or a multi-line quoted tag "
+             "_detailed_tag_parser directly; compile-path error lines; CR / CRLF sources (alphabet { %% } \" \\r \\n a up to %d, corpus, generators); the token "
+             "stream Template(source) hands to django.template.base.Parser (captured by wrapping Parser.__init__, engine.debug on and off) for every "
+             "corpus / structured / random / CR source and every 16th exhaustive one: same oracles against Template.source, equality with parse_template, "
+             "model comparison on a sample. Non-trivial = at least two quoted block tags or a multi-line quoted tag "
              "(detailed parser: closes after skipping a quoted %%}). Distinct = distinct (flag, source)."
-             % (l1, l2, nstruct),
+             % (l1, l2, nstruct, l3),
         explanation="theorems of Props/C09.v re-checked by coqc (partition, contents, lineno, first unquoted close, stock equality, equality with the "
                     "one-pass reference lexer spec_lex, first difference, termination - all sources); the Gallina model (django_lex, detailed, parse_template) is evaluated by vm_compute "
                     "inside Coq on the generated cases and compared with the observed tokens / errors of parse_template, DebugLexer and "
@@ -787,6 +888,23 @@ def replay(path):
         print("oracle:", f)
         set_dotall(bool(_state["ambient_flags"] & re.DOTALL))
         return 1 if f else 0
+    if case.get("kind") == "compile-route":
+        set_dotall(bool(case.get("dotall", True)))
+        s = case["source"]
+        obs, stock = run_impl(s)
+        rc = 0
+        for debug in ((case["debug"],) if "debug" in case else (True, False)):
+            cobs = run_impl_compile(s, debug)
+            f = local_oracle(s, cobs[1]) if cobs[0] == "toks" else None
+            if f is None:
+                f, _ = oracle(s, cobs, stock)
+            print("Template(source) -> Parser tokens (engine.debug=%r):" % debug, cobs)
+            print("oracle against Template.source:", f, "; equals parse_template(source):", cobs == obs)
+            rc = rc or (1 if (f or cobs != obs) else 0)
+        print("parse_template(source):", obs)
+        print("stock                 :", stock)
+        set_dotall(bool(_state["ambient_flags"] & re.DOTALL))
+        return rc
     if case.get("kind") == "compile" and "source" in case:
         from django.template import Engine, Template
         src = case["source"]
